@@ -19,6 +19,10 @@ COQ_CASE_TYPE = "case_t"
 SHARD = 150
 ALLOWED_AXIOMS = []
 TRUSTED = [
+    "label-source-change histories are judged by the Python oracle only (oracle_source_change: bulk == per-sample for the "
+    "wrapper under test, every layer of the wrapped stack and every sibling; SNAPSHOT_KINDS keep the construction-time "
+    "labels in both accessors, LIVE_KINDS follow the current wrapped labels in both, class -> group maps and slots of "
+    "class groups / superclass stay as fixed at construction); the Coq model covers the stack up to that step",
     "hand-written model coq/C16/Model.v of the ten wrappers (repaired tree); tied to KD_REPO by this run's "
     "correspondence evaluation (per-sample list, bulk list, shape, recorded draws)",
     "harness/c16.py: spy generators (module-level `np` / `torch` names of the wrapper modules are replaced by recording "
@@ -73,7 +77,11 @@ RULE = ("one wrapper kind per case (12 kinds incl. 4 pseudo-label table kinds), 
         "storage list / ndarray / tensor handed out as is or copied (6 providers, array-backed over-represented); 30% of the "
         "cases with C > 1 carry a construction history (1-3 siblings before, 0-2 after: same kind with another seed / other "
         "kinds, beside / stacked / on top of the wrapper under test); directed: every seeded kind x every own-storage provider "
-        "with a same-kind-other-seed sibling")
+        "with a same-kind-other-seed sibling; 30% of the cases (and a directed block: every kind x every provider x "
+        "{root, inner}) end with a LABEL-SOURCE CHANGE after everything was built -- the root dataset's label storage "
+        "edited in place (whole list or one corrected annotation) or the inner KDRandomClassWrapper re-configured through "
+        "its setters (seed / mode='randperm') -- after which the wrapper under test, every layer below it and every "
+        "sibling are read again through both accessors")
 
 # wrappers that may SHOW the -1 marker (pass it through or create it)
 UNLABELED_OK = {"swap", "overwrite", "allgather", "pseudo", "semi", "smoothing"}
@@ -248,7 +256,7 @@ def gen_sibling(rng, case, allow_same=True):
     same arguments) or any label wrapper that keeps length and class count; -> (spec, keeps the class count)"""
     k = case["w"]
     if allow_same and rng.random() < 0.45 and (k in SEEDED_KINDS or (k == "pseudo" and case.get("mode") == "topk")):
-        spec = {kk: v for kk, v in case.items() if kk not in ("labels", "n", "C", "inner", "under", "hist", "post", "prov")}
+        spec = {kk: v for kk, v in case.items() if kk not in ("labels", "n", "C", "inner", "under", "hist", "post", "prov", "src")}
         spec["seed"] = other_seed(rng, case.get("seed"))
         return spec, False
     return gen_under(rng, case["n"], case["C"]), True
@@ -293,6 +301,37 @@ def gen_history(rng, case):
     return hist, post
 
 
+# which accessors follow the wrapped dataset after construction (read off the code, mirrored by the oracle):
+#   snapshot-at-construction for BOTH accessors: swap (np.where over the labels fetched by the constructor), overwrite /
+#   pseudo / random_class (labels come from the wrapper's own arguments, the wrapped labels are never shown);
+#   live for BOTH accessors: semi, allgather, smoothing, onehot (pure functions of the current wrapped label and the
+#   index), class_groups / superclass (class -> group map and per-sample slot fixed at construction, applied to the
+#   CURRENT wrapped label)
+SNAPSHOT_KINDS = {"swap", "overwrite", "pseudo", "random_class"}
+LIVE_KINDS = {"semi", "allgather", "smoothing", "onehot", "class_groups", "superclass"}
+
+
+def gen_src(rng, case):
+    """history step 'the wrapped dataset's labels change AFTER the wrapper was built': the root dataset's label storage
+    is corrected in place, or an inner KDRandomClassWrapper is re-configured through its public setters"""
+    n, C, k = case["n"], case["C"], case["w"]
+    if case.get("inner") is not None and rng.random() < 0.7:
+        if rng.random() < 0.6:
+            return {"how": "inner_seed", "seed": other_seed(rng, case["inner"])}
+        return {"how": "inner_mode", "mode": "randperm"}
+    if k == "smoothing" and C == 1:
+        new = [rng.choice([0, 1, 1, -1]) for _ in range(n)]
+    else:
+        new = gen_labels(rng, n, C, k in UNLABELED_IN)
+    if new == case["labels"]:
+        i = rng.randrange(n)
+        new[i] = (new[i] + 1) % C if new[i] >= 0 else 0
+    if rng.random() < 0.4:      # a single corrected annotation
+        i = rng.randrange(n)
+        new = [y if j != i else new[i] for j, y in enumerate(case["labels"])]
+    return {"how": "root_edit", "labels": new}
+
+
 BINARY_KINDS = {"swap", "overwrite", "allgather", "pseudo", "semi", "random_class"}
 
 
@@ -301,7 +340,7 @@ def to_binary(case, rng):
     not read the class count as a table size are defined there (class groups / superclass / one-hot index or encode with it
     and reject label 1); label smoothing has its own binary cases"""
     n = case["n"]
-    c = {k: v for k, v in case.items() if k not in ("under", "topk", "tau", "threshold", "table", "as2d", "ties", "hist", "post")}
+    c = {k: v for k, v in case.items() if k not in ("under", "topk", "tau", "threshold", "table", "as2d", "ties", "hist", "post", "src")}
     c.update(C=1, inner=None, binary=True, labels=[rng.choice([0, 1, 1, -1]) for _ in range(n)])
     if c["w"] == "overwrite":
         c["classes"] = [rng.choice([0, 1, -1]) for _ in range(n)]
@@ -403,6 +442,10 @@ def _gen_case(rng, big=False, kind=None):
     case["prov"] = rng.choice(PROVIDERS + ["own_np", "own_torch"])
     if case["C"] > 1 and rng.random() < 0.3:
         case["hist"], case["post"] = gen_history(rng, case)
+    if rng.random() < 0.3:
+        if case["inner"] is None and kind in LIVE_KINDS and C > 1 and rng.random() < 0.4:
+            case["inner"] = gen_seed(rng)
+        case["src"] = gen_src(rng, case)
     return case
 
 
@@ -470,18 +513,40 @@ def directed_histories(rng):
     return out
 
 
+def directed_source_changes(rng):
+    """every wrapper kind x every provider: the label source changes after construction (root storage edited in place;
+    inner KDRandomClassWrapper re-seeded / switched to randperm), alone and under a stack / with a construction history"""
+    out = []
+    for kind in KINDS:
+        for prov in PROVIDERS:
+            for how in ("root", "inner"):
+                for _ in range(40):
+                    case = _gen_case(rng, kind=kind)
+                    if case["C"] > 1 and not (kind == "class_groups" and case["C"] % case["cpg"]) and case["n"] > 1:
+                        break
+                else:
+                    continue
+                case["prov"] = prov
+                if rng.random() < 0.6:
+                    case.pop("under", None)
+                case["inner"] = gen_seed(rng) if how == "inner" else None
+                case["src"] = gen_src(rng, case)
+                out.append(case)
+    return out
+
+
 def gen_cases(rng, tier):
     if tier == "quick":
-        out = directed_cases(rng) + directed_histories(rng)
+        out = directed_cases(rng) + directed_histories(rng) + directed_source_changes(rng)
         out += [gen_case(rng, kind=k) for k in KINDS for _ in range(12)]
         out += [gen_case(rng) for _ in range(900)]
     else:
-        out = directed_cases(rng) + [c for _ in range(6) for c in directed_histories(rng)] + [gen_case(rng) for _ in range(10000)] + [gen_case(rng, big=True) for _ in range(4000)]
+        out = directed_cases(rng) + [c for _ in range(6) for c in directed_histories(rng) + directed_source_changes(rng)] + [gen_case(rng) for _ in range(10000)] + [gen_case(rng, big=True) for _ in range(4000)]
     return out
 
 
 def search_cases(rng, tier):
-    for c in directed_cases(rng) + directed_histories(rng):
+    for c in directed_cases(rng) + directed_histories(rng) + directed_source_changes(rng):
         yield c
     for _ in range(30000):
         yield gen_case(rng, big=rng.random() < 0.3)
@@ -498,6 +563,8 @@ def _drop(case, i):
     for k in ("classes", "table"):
         if k in c:
             c[k] = case[k][:i] + case[k][i + 1:]
+    if "labels" in c.get("src", {}):
+        c["src"] = {**c["src"], "labels": c["src"]["labels"][:i] + c["src"]["labels"][i + 1:]}
     if "W" in c and c["W"] > c["n"]:
         return None
     if c.get("as2d") and c["n"] == 1:
@@ -525,7 +592,10 @@ def shrink(case):
     if case.get("prov", "own_list") != "own_list":
         yield {**case, "prov": "own_list"}
     if case.get("inner") is not None:
-        yield {**case, "inner": None}
+        if case.get("src", {}).get("how", "root_edit") == "root_edit":
+            yield {**case, "inner": None}
+        else:
+            yield {k: v for k, v in case.items() if k != "src"} | {"inner": None}
     if case.get("under"):
         yield {k: v for k, v in case.items() if k != "under"}
         for i in range(len(case["under"])):
@@ -538,7 +608,7 @@ def shrink(case):
             yield c
     if case.get("W", 1) > 1:
         yield {**case, "W": case["W"] - 1}
-    if any(y not in (0, -1) for y in case["labels"]) and case["w"] not in ("pseudo",):
+    if any(y not in (0, -1) for y in case["labels"]) and case["w"] not in ("pseudo",) and not case.get("src"):
         yield {**case, "labels": [min(y, 0) if y > 0 else y for y in case["labels"]]}
     if case.get("shuffle"):
         yield {**case, "shuffle": False}
@@ -1054,7 +1124,64 @@ def run_once(case, history=True):
             obs["changed_by"], obs["change"] = watch.first["after"], watch.first
         obs["after"] = _labels_of(wrapped)
         obs["tops"] = watch.tops
+        if case.get("src"):
+            _source_change(case, wrapped, w, sibs, obs)
     return obs
+
+
+def _source_change(case, wrapped, w, sibs, obs):
+    """the LABEL SOURCE changes after everything was built (done by the harness, after the purity checks): in-place edit
+    of the root dataset's storage / attribute change of an inner KDRandomClassWrapper; then every wrapper of the stack,
+    the wrapper under test and its siblings are read again through both accessors"""
+    import torch
+    from kappadata.wrappers.sample_wrappers.kd_random_class_wrapper import KDRandomClassWrapper
+    src = case["src"]
+    layers = _layers(wrapped)
+    root = layers[-1]
+    try:
+        if src["how"] == "root_edit":
+            new = [int(v) for v in src["labels"]]
+            if torch.is_tensor(root.store):
+                root.store[:] = torch.tensor(new, dtype=root.store.dtype)
+            else:
+                root.store[:] = new
+        else:
+            inner = layers[-2]
+            assert isinstance(inner, KDRandomClassWrapper)
+            if src["how"] == "inner_seed":
+                inner.seed = src["seed"]
+            else:
+                inner.mode = src["mode"]
+    except Exception as e:  # noqa
+        obs["src_error"] = type(e).__name__ + ": " + str(e)[:120]
+        return
+    obs["src_wrapped"] = _labels_of(wrapped)
+    obs["src_layers"] = [[type(l).__name__, _labels_of(l)] for l in layers]
+    n = len(w)
+    try:
+        obs["items4"] = [_plain(w.getitem_class(i)) for i in range(n)]
+    except Exception as e:
+        obs["items4"] = "error " + type(e).__name__ + ": " + str(e)[:120]
+    try:
+        obs["bulk4"] = [_plain(y) for y in _tolist(w.getall_class())]
+    except NotImplementedError:
+        obs["bulk4"] = "NotImplementedError"
+    except Exception as e:
+        obs["bulk4"] = "error " + type(e).__name__ + ": " + str(e)[:120]
+    sib_obs = []
+    for j, sib in enumerate(sibs):
+        if sib is wrapped or type(sib).__name__ in ("LabelSmoothingWrapper", "OneHotWrapper"):
+            continue
+        try:
+            a = [_plain(sib.getitem_class(i)) for i in range(len(sib))]
+            try:
+                b = [_plain(y) for y in _tolist(sib.getall_class())]
+            except NotImplementedError:
+                continue
+            sib_obs.append([j, type(sib).__name__, a, b])
+        except Exception as e:  # noqa
+            sib_obs.append([j, type(sib).__name__, "error " + type(e).__name__ + ": " + str(e)[:120], None])
+    obs["src_sibs"] = sib_obs
 
 
 def _seed_globals(a):
@@ -1155,6 +1282,9 @@ def oracle(case, obs):
         if obs["items3"] != items or obs["bulk3"] != bulk:
             return ("the wrapper's labels changed after LATER constructions on the same objects: per-sample "
                     f"{items} -> {obs['items3']}, bulk {bulk} -> {obs['bulk3']}" + hist_desc)
+    bad = oracle_source_change(case, obs)
+    if bad:
+        return bad + hist_desc
     if obs["x_ok"] is not True:
         return f"data other than the label is not passed through unchanged: {obs['x_ok']}"
     if obs.get("shadowed"):
@@ -1316,6 +1446,97 @@ def oracle(case, obs):
     return None
 
 
+def oracle_source_change(case, obs):
+    """after the label source changed: bulk accessor == per-sample accessor element-wise for every label wrapper of the
+    objects (wrapper under test, the stack below it, its siblings), and the wrapper under test behaves as its kind is
+    modelled (SNAPSHOT_KINDS: both accessors still show the construction-time labels; LIVE_KINDS: both follow the
+    current wrapped labels)"""
+    if "src" not in case or "items" not in obs:
+        return None
+    src = case["src"]
+    what = ("the root dataset's label storage was edited in place to " + str(src["labels"]) if src["how"] == "root_edit" else
+            f"the inner KDRandomClassWrapper was re-configured ({'seed' if src['how'] == 'inner_seed' else 'mode'} = "
+            f"{src.get('seed', src.get('mode'))!r})")
+    if "src_error" in obs:
+        return f"harness: changing the label source failed: {obs['src_error']}"
+    k = case["w"]
+    items, bulk = obs["items4"], obs["bulk4"]
+    pre = f"after the wrapped dataset's labels changed ({what}; wrapped labels {obs['wrapped']} -> {obs['src_wrapped']}): "
+    for name, labs in obs["src_layers"]:
+        if labs and labs[0] == "INCONSISTENT":
+            return pre + f"layer {name} of the wrapped stack: per-sample {labs[1]} but getall_class() {labs[2]}"
+    for j, name, a, b in obs["src_sibs"]:
+        if isinstance(a, str):
+            return pre + f"sibling {j} ({name}) raised {a}"
+        if a != b:
+            return pre + f"sibling {j} ({name}): per-sample {a} but getall_class() {b}"
+    if isinstance(items, str):
+        return pre + "getitem_class raised: " + items
+    if isinstance(bulk, str) and bulk != "NotImplementedError":
+        return pre + "getall_class raised: " + bulk
+    new, old = obs["src_wrapped"], obs["wrapped"]
+    if k in ("smoothing", "onehot"):
+        if bulk != new:
+            return pre + f"bulk accessor of the re-encoding wrapper shows {bulk}, the wrapped labels are {new}"
+        enc = {}
+        for y, it in zip(old, obs["items"]):
+            enc.setdefault(y, it)
+        for i, (y, it) in enumerate(zip(new, items)):
+            if y in enc and enc[y] != it:
+                return pre + f"sample {i}: label {y} is encoded as {it}, before the change label {y} was encoded as {enc[y]}"
+        return None
+    if bulk != "NotImplementedError" and bulk != items:
+        d = next((i for i in range(min(len(bulk), len(items))) if bulk[i] != items[i]), min(len(bulk), len(items)))
+        return (pre + f"bulk accessor differs from the per-sample accessor at sample {d}: getall_class()={bulk} "
+                f"per-sample={items}")
+    if dynamic(case):
+        return None
+    if k in SNAPSHOT_KINDS:
+        if items != obs["items"]:
+            return pre + f"a wrapper that shows labels fixed at construction now shows {items}, before {obs['items']}"
+        return None
+    n = len(items)
+    if any(not isinstance(y, int) for y in items):
+        return pre + f"non-integer label in {items}"
+    if k == "semi":
+        for i in range(n):
+            hidden = obs["items"][i] == -1 and old[i] != -1
+            shown = obs["items"][i] != -1
+            if (hidden and items[i] != -1) or (shown and items[i] != new[i]) or items[i] not in (-1, new[i]):
+                return pre + f"semi wrapper shows {items} (before the change {obs['items']})"
+    if k == "allgather":
+        perm = {}
+        import numpy as np
+        W = case["W"]
+        pad = (W - n % W) % W
+        idx = np.concatenate([np.arange(n), np.arange(n)[:pad]]).reshape(-1, W).T.reshape(-1)[:n]
+        if items != [new[i] for i in idx.tolist()]:
+            return pre + f"all-gather order with world_size={W}: expected {[new[i] for i in idx.tolist()]}, got {items}"
+    if k in ("class_groups", "superclass") and in_domain(case, old) and in_domain(case, new):
+        shape = obs["shape"][0]
+        if any(not 0 <= y < shape for y in items):
+            return pre + f"label outside the announced range [0,{shape}): {items}"
+        if k == "class_groups":
+            cpg = case["cpg"]
+            grp = lambda y: y // cpg
+            slot = lambda y: y % cpg
+        else:
+            og = -(-case["C"] // case["cps"])
+            grp = lambda y: y % og
+            slot = lambda y: y // og
+        seen = {}
+        for c, y in zip(old, obs["items"]):
+            seen.setdefault(c, grp(y))
+        for i, (c, y) in enumerate(zip(new, items)):
+            if c in seen and grp(y) != seen[c]:
+                return pre + (f"sample {i}: class {c} went to group {seen[c]} before the change and goes to group "
+                              f"{grp(y)} now ({items})")
+            if slot(y) != slot(obs["items"][i]):
+                return pre + f"sample {i}: slot {slot(y)} within the group, fixed at construction as {slot(obs['items'][i])}"
+            seen.setdefault(c, grp(y))
+    return None
+
+
 # ---------------------------------------------------------------------------
 # rendering to Coq
 # ---------------------------------------------------------------------------
@@ -1463,6 +1684,12 @@ def features(case, obs):
             "same kind" if same else "other kind",
             " with another seed" if same and st["spec"].get("seed") != case.get("seed") else "",
             "beside" if st["on"] == -1 else "on top of the wrapper under test" if st["on"] == -2 else "stacked on a sibling")
+    if case.get("src"):
+        changed = obs.get("src_wrapped") != obs.get("wrapped")
+        yield "label source changes after construction: %s, wrapped labels change=%s" % (case["src"]["how"], changed)
+        if changed and "items4" in obs:
+            yield "label source change: %s wrapper %s" % (
+                "snapshot" if k in SNAPSHOT_KINDS else "live", "follows" if obs["items4"] != obs.get("items") else "keeps its labels")
     if "seed" in case:
         yield "seed=" + ("None" if case["seed"] is None else "0" if case["seed"] == 0 else "1" if case["seed"] == 1 else "other")
     yield "has-unlabeled=%s" % (-1 in (obs.get("wrapped") or []))
